@@ -295,16 +295,18 @@ void module_close_all(void)
     struct set_node *next;
     struct module *module;
     int progress;
+    int backends;
 
     /* Iterate over modules as long as we find some to free.  In each
      * iteration, free any that are not dependencies of other loaded
-     * modules. */
-    do {
+     * modules.  Back-ends of the core go in a second pass, in the
+     * same dependency order. */
+    for (backends = 0; backends < 2; ++backends) do {
         progress = 0;
         for (node = set_first(&modules); node; node = next) {
             next = set_next(node);
             module = set_node_data(node);
-            if (module->is_backend || module->rdepends.used)
+            if ((module->is_backend && !backends) || module->rdepends.used)
                 continue;
             set_remove(&modules, module, 0);
             progress = 1;
